@@ -216,16 +216,17 @@ structure Loc {α : Type} (r : Nat) (m : HM α) (Q : α → Prop) : Prop where
   frame : ∀ h, Closed r h →
     Closed r (m h).2 ∧ (∀ r', r' ≠ r → (m h).2[r']? = h[r']?) ∧ (∀ a, (m h).1 = .ok a → Q a)
   loc : ∀ h1 h2, Closed r h1 → h1[r]? = h2[r]? → (m h2).1 = (m h1).1 ∧ (m h2).2[r]? = (m h1).2[r]?
+  len : ∀ h, Closed r h → (m h).2.length = h.length      -- no region is opened or closed
 
 theorem Loc.mono {α : Type} {r : Nat} {m : HM α} {Q Q' : α → Prop} (l : Loc r m Q) (hq : ∀ a, Q a → Q' a) :
     Loc r m Q' :=
-  ⟨fun h c => ⟨(l.frame h c).1, (l.frame h c).2.1, fun a e => hq a ((l.frame h c).2.2 a e)⟩, l.loc⟩
+  ⟨fun h c => ⟨(l.frame h c).1, (l.frame h c).2.1, fun a e => hq a ((l.frame h c).2.2 a e)⟩, l.loc, l.len⟩
 
 theorem Loc.pure {α : Type} {r : Nat} {Q : α → Prop} (a : α) (hq : Q a) : Loc r (pure a : HM α) Q :=
-  ⟨fun h c => ⟨c, fun _ _ => rfl, fun b e => by cases e; exact hq⟩, fun _ _ _ e => ⟨rfl, e.symm⟩⟩
+  ⟨fun h c => ⟨c, fun _ _ => rfl, fun b e => by cases e; exact hq⟩, fun _ _ _ e => ⟨rfl, e.symm⟩, fun _ _ => rfl⟩
 
 theorem Loc.fail {α : Type} {r : Nat} {Q : α → Prop} (e : Err) : Loc r (fail e : HM α) Q :=
-  ⟨fun h c => ⟨c, fun _ _ => rfl, fun b e => by cases e⟩, fun _ _ _ e => ⟨rfl, e.symm⟩⟩
+  ⟨fun h c => ⟨c, fun _ _ => rfl, fun b e => by cases e⟩, fun _ _ _ e => ⟨rfl, e.symm⟩, fun _ _ => rfl⟩
 
 theorem Loc.bind {α β : Type} {r : Nat} {m : HM α} {f : α → HM β} {Q : α → Prop} {Q' : β → Prop}
     (lm : Loc r m Q) (lf : ∀ a, Q a → Loc r (f a) Q') : Loc r (m >>= f) Q' := by
@@ -257,6 +258,16 @@ theorem Loc.bind {α β : Type} {r : Nat} {m : HM α} {f : α → HM β} {Q : α
         cases res2 with
         | error er => exact ⟨rfl, e2⟩
         | ok a => exact (lf a (fm.2.2 a rfl)).loc g1 g2 fm.1 e2.symm
+  · intro h c
+    rw [bind_apply]
+    have lm' := lm.len h c
+    have fm := lm.frame h c
+    cases hm : m h with
+    | mk res h1 =>
+      rw [hm] at lm' fm
+      cases res with
+      | error e => exact lm'
+      | ok a => exact ((lf a (fm.2.2 a rfl)).len h1 fm.1).trans lm'
 
 theorem Loc.ite {α : Type} {r : Nat} {c : Prop} [Decidable c] {a b : HM α} {Q : α → Prop}
     (la : c → Loc r a Q) (lb : ¬ c → Loc r b Q) : Loc r (if c then a else b) Q := by
@@ -290,6 +301,9 @@ theorem Loc.rd {r : Nat} {p : Id} (hp : p.reg = r) : Loc r (rd p) (InReg r) := b
     cases h1.get? p with
     | none => exact ⟨rfl, e.symm⟩
     | some o => exact ⟨rfl, e.symm⟩
+  · intro h _
+    unfold Heap.rd
+    cases h.get? p <;> rfl
 
 theorem Loc.wr {r : Nat} {p : Id} {o : Obj} (hp : p.reg = r) (ho : InReg r o) : Loc r (wr p o) (fun _ => True) := by
   constructor
@@ -309,6 +323,11 @@ theorem Loc.wr {r : Nat} {p : Id} {o : Obj} (hp : p.reg = r) (ho : InReg r o) : 
       refine ⟨rfl, ?_⟩
       subst hp
       simp only [put_same, e]
+  · intro h _
+    unfold Heap.wr
+    cases h.get? p with
+    | none => rfl
+    | some o' => exact List.length_modify ..
 
 theorem Loc.wrLeaf {r : Nat} {p : Id} {o : Obj} (hp : p.reg = r) (ho : InReg r o) :
     Loc r (wrLeaf p o) (fun _ => True) := by
@@ -335,6 +354,15 @@ theorem Loc.wrLeaf {r : Nat} {p : Id} {o : Obj} (hp : p.reg = r) (ho : InReg r o
         subst hp
         simp only [put_same, e]
       · exact ⟨rfl, e.symm⟩
+  · intro h _
+    unfold Heap.wrLeaf
+    cases h.get? p with
+    | none => rfl
+    | some o' =>
+      simp only
+      split
+      · exact List.length_modify ..
+      · rfl
 
 theorem Loc.new {r : Nat} {o : Obj} (ho : InReg r o) : Loc r (new r o) (fun p => p.reg = r) := by
   constructor
@@ -352,6 +380,11 @@ theorem Loc.new {r : Nat} {o : Obj} (ho : InReg r o) : Loc r (new r o) (fun p =>
     | some l =>
       refine ⟨rfl, ?_⟩
       simp only [push_same, ← e]
+  · intro h _
+    unfold Heap.new
+    cases h[r]? with
+    | none => rfl
+    | some l => exact List.length_modify ..
 
 theorem Loc.tryFinally {α : Type} {r : Nat} {m : HM α} {fin : HM Unit} {Q : α → Prop} {Q' : Unit → Prop}
     (lm : Loc r m Q) (lf : Loc r fin Q') : Loc r (tryFinally m fin) Q := by
@@ -382,6 +415,15 @@ theorem Loc.tryFinally {α : Type} {r : Nat} {m : HM α} {fin : HM Unit} {Q : α
         cases a2 with
         | ok u => exact ⟨l1.1, e4⟩
         | error er => exact ⟨rfl, e4⟩
+  · intro h c
+    have fm := lm.frame h c
+    have l1 := lm.len h c
+    have l2 := lf.len (m h).2 fm.1
+    unfold HM.tryFinally
+    cases hf : fin (m h).2 with
+    | mk res2 h2 =>
+      rw [hf] at l2
+      cases res2 <;> exact l2.trans l1
 
 theorem Loc.catchSpiral {α : Type} {r : Nat} {m handler : HM α} {Q : α → Prop}
     (lm : Loc r m Q) (lh : Loc r handler Q) : Loc r (catchSpiral m handler) Q := by
@@ -425,6 +467,22 @@ theorem Loc.catchSpiral {α : Type} {r : Nat} {m handler : HM α} {Q : α → Pr
           | value => exact ⟨rfl, e2⟩
           | cycle => exact ⟨rfl, e2⟩
           | fuel => exact ⟨rfl, e2⟩
+  · intro h c
+    have fm := lm.frame h c
+    have l1 := lm.len h c
+    unfold HM.catchSpiral
+    cases hm : m h with
+    | mk res h1 =>
+      rw [hm] at fm l1
+      cases res with
+      | ok a => exact l1
+      | error er =>
+        cases er with
+        | spiral => exact (lh.len h1 fm.1).trans l1
+        | bad => exact l1
+        | value => exact l1
+        | cycle => exact l1
+        | fuel => exact l1
 
 /-! ## typed reads -/
 
